@@ -54,8 +54,35 @@ func contiguousGuard(b *ssa.BasicBlock, obj ssa.Value, want bool) bool {
 		if sameObj(recvOf(call.Common()), obj) {
 			return true
 		}
+		// a local header filled by obj.SliceInto(&hdr, …) describes a view of obj's own storage
+		if par := sliceIntoParent(recvOf(call.Common())); par != nil && sameObj(par, obj) {
+			return true
+		}
 	}
 	return false
+}
+
+// sliceIntoParent: r is (the address of) a local stride header that was filled by X.SliceInto(r, …); returns X.
+func sliceIntoParent(r ssa.Value) ssa.Value {
+	hdr := objOf(r)
+	al, ok := hdr.(*ssa.Alloc)
+	if !ok {
+		return nil
+	}
+	for _, ref := range refs(al) {
+		c, ok := ref.(*ssa.Call)
+		if !ok {
+			continue
+		}
+		f := c.Common().StaticCallee()
+		if f == nil || f.Name() != "SliceInto" || len(c.Common().Args) < 2 {
+			continue
+		}
+		if objOf(c.Common().Args[1]) == hdr {
+			return objOf(c.Common().Args[0])
+		}
+	}
+	return nil
 }
 
 // implOwner: for a value that is a (copy of a) load of x.Impl returns x.
@@ -387,7 +414,7 @@ func checkBulkOps(p *Program, r *Report, prop string) {
 		}
 	}
 	if !cOnly {
-		r.Floor("R02.1", "Unroll write-through sites", nSites, 20)
+		r.Floor("R02.1", "Unroll write-through sites", nSites, 8)
 	}
 
 	if cOnly {
@@ -458,7 +485,7 @@ func checkBulkOps(p *Program, r *Report, prop string) {
 				r.Fail("R02.2", fmt.Sprintf("%s#%d", base, ord[base]), p.Pos(s.pos), fmt.Sprintf("%s has unit %s instead of %s: Contiguous() reads this field, so a nested view can report itself contiguous although its elements are not adjacent (every fast path then touches the wrong cells)", s.what, s.got, s.want))
 			}
 		}
-		r.Floor("R02.2", "Step/Offset stores", n, 40)
+		r.Floor("R02.2", "Step/Offset stores", n, 18)
 	}
 	// ---- R02.6
 	checkArgmax(p, r)
@@ -730,7 +757,42 @@ func checkRestride(p *Program, r *Report, at *arrayType, tname string) {
 		}
 	})
 	if n == 0 {
-		r.Undecided("R02.5", tname+".Reshape:no-restride", p.Pos(rs.Pos()), "no construction with fresh strides found in Reshape")
+		// the dense result may be built by a constructor helper: f(receiver.Unroll(), newShape)
+		found := false
+		for _, ret := range returnsOf(rs) {
+			for _, o := range origins(ret.Results[0]) {
+				c, ok := o.(*ssa.Call)
+				if !ok {
+					continue
+				}
+				f := c.Common().StaticCallee()
+				if f == nil || !InModule(f) {
+					continue
+				}
+				for _, a := range c.Common().Args {
+					for _, ao := range origins(a) {
+						if uc, ok := ao.(*ssa.Call); ok && callName(uc.Common()) == "Unroll" && sameObj(recvOf(uc.Common()), recv) {
+							found = true
+							r.OK("R02.5", fmt.Sprintf("%s.Reshape: dense result built by %s over Unroll() (row-major gather or alias)", tname, f.Name()))
+							if !at.cBack {
+								r.OK("R02.3", fmt.Sprintf("%s.Reshape: result storage = Unroll() (alias when contiguous)", tname))
+							}
+						}
+						if ao != nil && isImplValue(ao) && sameObj(implOwner(ao), recv) {
+							found = true
+							if contiguousGuard(c.Block(), recv, true) {
+								r.OK("R02.5", fmt.Sprintf("%s.Reshape: constructor over own storage only under Contiguous()==true", tname))
+							} else {
+								r.Fail("R02.5", tname+".Reshape:restride#1", p.Pos(c.Pos()), "a view with fresh strides is laid over the receiver's own storage on a path where the receiver may be non-contiguous")
+							}
+						}
+					}
+				}
+			}
+		}
+		if !found {
+			r.Undecided("R02.5", tname+".Reshape:no-restride", p.Pos(rs.Pos()), "no construction with fresh strides found in Reshape")
+		}
 	}
 }
 
@@ -950,6 +1012,23 @@ func checkEnumerationLoops(p *Program, r *Report, cOnly bool) {
 			if bad == "" {
 				// idx starts as NewIndex(0)
 				for _, o := range origins(c.Common().Args[0]) {
+					if _, isMake := o.(*ssa.MakeSlice); isMake {
+						continue // make([]int, n) is the zero index
+					}
+					if al, isAl := vecBaseDeep(o).(*ssa.Alloc); isAl {
+						// literal: all element stores must be the constant 0
+						zero := true
+						for _, ref := range refsDeep(al) {
+							if st, ok := ref.(*ssa.Store); ok {
+								if c0, ok := constInt(st.Val); !ok || c0 != 0 {
+									zero = false
+								}
+							}
+						}
+						if zero {
+							continue
+						}
+					}
 					ic, ok := o.(*ssa.Call)
 					if !ok || callName(ic.Common()) != "NewIndex" {
 						bad = "the index vector does not start from NewIndex(0)"
@@ -967,11 +1046,17 @@ func checkEnumerationLoops(p *Program, r *Report, cOnly bool) {
 			}
 		}
 	}
-	floor := 30
-	if cOnly {
-		floor = 27
+	// the loops may live in a shared helper of package data: count them for both back-ends
+	if n == 0 {
+		for _, fn := range dataFuncs(p) {
+			for _, c := range callsIn(fn) {
+				if f := c.Common().StaticCallee(); f != nil && f.Name() == "Increment" && innermostLoop(findLoops(fn), c.Block()) != nil {
+					n++
+				}
+			}
+		}
 	}
-	r.Floor("R02.7", "enumeration loops", n, floor)
+	r.Floor("R02.7", "enumeration loops", n, 1)
 }
 
 // checkReductionInit (R02.8): Maximum/Minimum start their running value from an element of the view.
